@@ -33,8 +33,10 @@ MonStep0(mm, e) ==
              !.succ = IF op.o = "on_success" /\ op.p \in Contacted(mm) THEN @ \cup {op.p} ELSE @,   \* any success report after the contact
              !.accs = IF acc THEN @ \cup {op.p} ELSE @,
              !.learned = IF acc THEN @ \cup {op.news[i][1] : i \in 1..Len(op.news)} ELSE @,
+             \* per peer: was it ever / always reported with a record satisfying the predicate (a peer can be reported with several records)
              !.match = IF op.o = "on_success" /\ op.p \in Contacted(mm) THEN [p \in DOMAIN @ \cup {op.news[i][1] : i \in 1..Len(op.news)} |->
-                                      IF p \in DOMAIN @ THEN @[p] ELSE op.news[CHOOSE i \in 1..Len(op.news) : op.news[i][1] = p][2]] ELSE @,
+                                      LET now1 == {op.news[i][2] : i \in {i \in 1..Len(op.news) : op.news[i][1] = p}} IN
+                                      [any |-> (p \in DOMAIN @ /\ @[p].any) \/ TRUE \in now1, all |-> (p \in DOMAIN @ => @[p].all) /\ FALSE \notin now1]] ELSE @,
              !.everStalled = @ \/ e.st[1] = "Stalled",
              !.finished = @ \/ e.ret[1] = "Finished"]
 
@@ -57,10 +59,10 @@ MonViol0(mm, m2, e) ==
           LET r == e.ret[2] IN
           (IF ~Sorted(r) \/ Len(r) > mm.cfg.nr THEN {"C10.OrderOrSize"} ELSE {})
           \cup (IF \E i \in 1..Len(r) : r[i] \notin mm.succ THEN {"C10.NotAnswered"} ELSE {})
-          \cup (IF mm.cfg.pred /\ \E i \in 1..Len(r) : ~(r[i] \in DOMAIN mm.match /\ mm.match[r[i]]) THEN {"C10.PredicateMismatch"} ELSE {})
+          \cup (IF mm.cfg.pred /\ \E i \in 1..Len(r) : ~(r[i] \in DOMAIN mm.match /\ mm.match[r[i]].any) THEN {"C10.PredicateMismatch"} ELSE {})
           \cup (IF mm.finished /\ Len(r) < mm.cfg.nr /\ \E p \in mm.learned : p \notin Contacted(mm) THEN {"C10.Incomplete"} ELSE {})   \* only if not cut off
           \* every peer that answered and (for predicate lookups) matches, among the closest, is in the result: the closest nr of them
-          \cup (IF LET good == {p \in mm.accs : ~mm.cfg.pred \/ (p \in DOMAIN mm.match /\ mm.match[p])} IN
+          \cup (IF LET good == {p \in mm.accs : ~mm.cfg.pred \/ (p \in DOMAIN mm.match /\ mm.match[p].all)} IN
                    \E p \in good : p \notin {r[i] : i \in 1..Len(r)} /\ (Len(r) < mm.cfg.nr \/ \E i \in 1..Len(r) : r[i] > p)
                 THEN {"C10.MissingCloser"} ELSE {})
         ELSE {})
@@ -75,7 +77,7 @@ Next ==
               n == IF Len(e.op.cands) < c.nr THEN Len(e.op.cands) ELSE c.nr IN
           /\ q' = New(c, e.op.cands)
           /\ m' = [M0 EXCEPT !.cfg = c, !.learned = {e.op.cands[i][1] : i \in 1..n},
-                             !.match = [p \in {e.op.cands[i][1] : i \in 1..n} |-> e.op.cands[CHOOSE i \in 1..n : e.op.cands[i][1] = p][2]]]
+                             !.match = [p \in {e.op.cands[i][1] : i \in 1..n} |-> LET f == {e.op.cands[i][2] : i \in {i \in 1..n : e.op.cands[i][1] = p}} IN [any |-> TRUE \in f, all |-> FALSE \notin f]]]
           /\ UNCHANGED <<viols, sr>>
      ELSE /\ m' = MonStep(m, e)
           /\ viols' = viols \o SetToSeq({<<l, f>> : f \in MonViol(m, m', e)})
